@@ -258,8 +258,13 @@ class StructureMetaType(MetaType):
                 offset = struct_start + field.offset
                 stream.seek(offset)
 
-            if cls.__align__ and field.offset is None:
-                # Previous field was dynamically sized and we need to align
+            bit_field_type = (
+                (field.type.type if isinstance(field.type, EnumMetaType) else field.type) if field.bits else None
+            )
+            in_bit_unit = bit_buffer._remaining and bit_buffer._type == bit_field_type
+
+            if cls.__align__ and field.offset is None and not in_bit_unit:
+                # Previous field was dynamically sized and we need to align (a bit field inside a unit does not move)
                 offset += -offset & (field.alignment - 1)
                 stream.seek(offset)
 
